@@ -298,8 +298,8 @@ def handleTransactionPayload (n : Node) (ref : Ref) (data : Option Payload) : HR
         | some tx =>
           if p.sha != tx.payloadHash then { node := n, ret := "err:hash-mismatch" }
           else
-            let n1 := { n with payloads := Nuts.alPut n.payloads p.sha p }
-            if n1.hasReceiver then { node := n1 } else { node := n1, ret := "panic:privatePayloadReceiver-nil" }
+            -- `privatePayloadReceiver.Finished(ref)` is skipped when no receiver is configured (no node DID)
+            { node := { n with payloads := Nuts.alPut n.payloads p.sha p } }
 
 /-- `protocol.handle` with every handler run synchronously -/
 def handle (cfg : Cfg) (env : Env) (n : Node) (peer : Peer) (m : Msg) : HR :=
